@@ -70,7 +70,7 @@ func bip66String(r *gen.Rng) ([]byte, string) {
 		return build(0x30, total, 0x02, len(R), 0x02, gen.Pick(r, 0, len(S)-1, len(S)+1, 0x7f, 0x80, 0xff), true), "wrong-S-length"
 	case 12:
 		b := build(0x30, total, 0x02, len(R), 0x02, len(S), true)
-		return append(b, byte(r.U64())), "extra-trailing-byte"
+		return append(b, trailingBytes(r)...), "extra-trailing-byte"
 	case 13:
 		R = nil
 		return build(0x30, 4+len(S), 0x02, 0, 0x02, len(S), true), "empty-R"
@@ -217,11 +217,11 @@ func spkiMutant(r *gen.Rng, pt []byte) ([]byte, string) {
 	case 14:
 		return tlv(0x30, append(alg(oidA, oidC, []byte{0x05, 0x00}), bits(0, pt)...)), "extra-null-parameter"
 	case 15:
-		return tlv(0x30, append(append(alg(oidA, oidC, nil), bits(0, pt)...), byte(r.U64()))), "trailing-inside-outer"
+		return tlv(0x30, append(append(alg(oidA, oidC, nil), bits(0, pt)...), trailingBytes(r)...)), "trailing-inside-outer"
 	case 16:
-		return append(std(), byte(r.U64())), "trailing-outside"
+		return append(std(), trailingBytes(r)...), "trailing-outside"
 	case 17:
-		return tlv(0x30, append(alg(oidA, oidC, nil), bits(0, append(append([]byte{}, pt...), byte(r.U64())))...)), "trailing-inside-bitstring"
+		return tlv(0x30, append(alg(oidA, oidC, nil), bits(0, append(append([]byte{}, pt...), trailingBytes(r)...))...)), "trailing-inside-bitstring"
 	case 18:
 		c := std()
 		c[0] = gen.Pick(r, byte(0x31), 0x10, 0xb0, 0x70)
@@ -366,6 +366,10 @@ func runC12(r *mon.Run) {
 		l := i % 81
 		if i%3 != 0 {
 			l = gen.Pick(rng, 64, 65, 64, 65, 63, 66)
+		}
+		if i%41 == 7 {
+			// a valid string followed by exactly 256 / 512 / 65536 more bytes
+			l = gen.Pick(rng, 64, 65) + gen.Pick(rng, 256, 512, 65536, 255, 257)
 		}
 		data := rng.Bytes(l)
 		if l >= 64 {
